@@ -1,5 +1,6 @@
 (* C05 -- the harvested dataset is the faithful merge of everything ever harvested. *)
-From XV Require Import Prelude Grid Names Harvest GenNames BridgeNames GridProofs HarvestProofs.
+From XV Require Import Prelude Grid Names Harvest HarvestFlow GenNames BridgeNames GenHarvest BridgeHarvest GridProofs
+  HarvestProofs HarvestFlowProofs.
 Open Scope Z_scope.
 
 (* the value at every point is the one the overwrite policy decides *)
@@ -77,8 +78,52 @@ Lemma C05_name_resolution_refuted_old :
   end.
 Proof. vm_compute. reflexivity. Qed.
 
-Theorem C05_code_tie : gen_sites = model_sites /\ (forall n e, gen_auto_add_extension n e = auto_add_extension n e).
-Proof. exact (conj bridge_sites bridge_auto_add_extension). Qed.
+(* a harvest whose file write fails (disk full, unwritable directory, a value the engine cannot store) is
+   atomic: the error reaches the caller, the file is untouched and memory still equals the file *)
+Theorem C05_write_failure_atomic : forall name e s a new pol tmp,
+  Rel name e s a ->
+  let r := hadd_wfail model_sites name e model_add_flow model_save_flow s new pol tmp in
+  snd r = true /\ h_disk (fst r) = h_disk s /\ h_mem (fst r) = a /\ Rel name e (fst r) a.
+Proof. intros. apply write_failure_atomic. assumption. Qed.
+
+(* ... and histories with such failures at any step still refine the one abstract dataset; here the
+   steps are the interpretation of the control flow REGENERATED from add_ds / save_full_ds / save_merge_ds *)
+Theorem C05_refines_spec_through_generated_flow : forall name e ops,
+  forallb fall_synced ops = true ->
+  Forall2 (fun r q => Rel name e (fst r) (fst q) /\ snd r = snd q)
+          (frun gen_flows gen_sites name e (mk_hst None []) ops) (fspec_run None ops).
+Proof.
+  intros name e ops H. rewrite bridge_flows, bridge_sites.
+  apply frun_refines; [split; [reflexivity|reflexivity]|exact H].
+Qed.
+
+(* what [overwrite] dispatches to in the code is the policy merge *)
+Theorem C05_generated_dispatch_is_policy : forall pol old new,
+  combine_eval (dispatch_at (af_dispatch gen_add_flow) pol) old new = merge pol old new /\
+  combine_eval (dispatch_at gen_save_merge_dispatch pol) old new = merge pol old new.
+Proof.
+  intros. rewrite bridge_add_flow. destruct bridge_save_merge as [-> _].
+  split; apply dispatch_is_merge.
+Qed.
+
+Example C05_write_failure_nonvacuous :
+  let ops := [FOp (HAdd [([100; 1; 1], 5)] true PolNone); FWFail [([100; 1; 2], 6)] PolNone true;
+              FOp (HAdd [([100; 1; 3], 7)] true PolNone)] in
+  map snd (frun gen_flows gen_sites "data" Eh5netcdf (mk_hst None []) ops) = [false; true; false].
+Proof. vm_compute. reflexivity. Qed.
+
+(* sensitivity: had save_full_ds updated memory before the write, a failed write would leave memory
+   ahead of the file (this is not the code's order; it shows the theorem depends on the order) *)
+Lemma C05_mem_before_write_refuted :
+  let s := mk_hst None [] in
+  let r := hadd_wfail model_sites "data" Eh5netcdf model_add_flow (mk_save_flow MemBeforeWrite RrAlways true)
+                      s [([100; 1; 1], 5)] PolNone true in
+  h_mem (fst r) = Some [([100; 1; 1], 5)] /\ h_disk (fst r) = [].
+Proof. vm_compute. split; reflexivity. Qed.
+
+Theorem C05_code_tie : gen_sites = model_sites /\ (forall n e, gen_auto_add_extension n e = auto_add_extension n e)
+  /\ gen_flows = model_flows /\ gen_load_rule = model_load_rule.
+Proof. exact (conj bridge_sites (conj bridge_auto_add_extension (conj bridge_flows bridge_load_rule))). Qed.
 
 Print Assumptions C05_policy.
 Print Assumptions C05_conflict_atomic.
@@ -86,4 +131,7 @@ Print Assumptions C05_monotone.
 Print Assumptions C05_refines_spec.
 Print Assumptions C05_memory_equals_disk.
 Print Assumptions C05_name_resolution.
+Print Assumptions C05_write_failure_atomic.
+Print Assumptions C05_refines_spec_through_generated_flow.
+Print Assumptions C05_generated_dispatch_is_policy.
 Print Assumptions C05_code_tie.
